@@ -3,12 +3,13 @@
    positive / N / Z / nat stay the extracted inductives. *)
 Require Extraction.
 Require Import ExtrOcamlBasic.
-From DMCG Require Import IdentInst Escape EscapeTables Relative SortModels Plumbing PlumbingTables Version FieldSem EnumModel.
+From DMCG Require Import IdentInst Escape EscapeTables Relative SortModels Plumbing PlumbingTables Version FieldSem EnumModel TypeHint.
 Cd "extract".
 Extraction "Model.ml" U0 get_valid_name field_name_and_alias camel_to_snake s2uc
   translate enum_table regex_table tdkey_table lex_sq lex_raw lex_tq doc_enc raw_safe comment_ok
   relative written py_resolve resolve_use package_of is_init
   sort_data_models merged forwarded forward_map provides
   flags_of key required_rt admits_null reads_default guard c05_ok
-  parse_enum enum_nullable find_member.
+  parse_enum enum_nullable find_member
+  th show render rn make_optional.
 Cd "..".
